@@ -591,7 +591,9 @@ impl<'a> Parser<'a> {
             }
 
             self.begin_scope();
-            self.compiler_mut().add_local(&Token::from_string("super"));
+            if !self.compiler_mut().add_local(&Token::from_string("super")) {
+                self.error("Too many variables in function.");
+            }
             self.define_variable(0);
 
             self.named_variable(name.clone(), false);
@@ -804,8 +806,13 @@ impl<'a> Parser<'a> {
 
         self.compiler_mut().mark_initialised(loop_var);
 
-        self.compiler_mut()
-            .add_local(&Token::from_string(loop_iter_name));
+        if !self
+            .compiler_mut()
+            .add_local(&Token::from_string(loop_iter_name))
+        {
+            // The hidden iterator needs a slot of its own, like any other local.
+            self.error("Too many variables in function.");
+        }
         let iter_method_name = self.identifier_constant(&Token::from_string("iter"));
         // Fetch the iterator itself
         self.emit_constant_op(OpCode::Invoke, iter_method_name);
